@@ -179,21 +179,22 @@ func (svc *service) start() error {
 		}
 	}
 
+	// Account for all three goroutines before starting the first one: the processor
+	// may finish at once (connection already closed) and run stop(), whose
+	// wgStopped.Wait() must not return before receiver and sender have been started
+	// and have ended.
+	svc.wgStarted.Add(3)
+	svc.wgStopped.Add(3)
+
 	// Processor is responsible for reading messages out of the buffer and processing
 	// them accordingly.
-	svc.wgStarted.Add(1)
-	svc.wgStopped.Add(1)
 	go svc.processor()
 
 	// Receiver is responsible for reading from the connection and putting data into
 	// a buffer.
-	svc.wgStarted.Add(1)
-	svc.wgStopped.Add(1)
 	go svc.receiver()
 
 	// Sender is responsible for writing data in the buffer into the connection.
-	svc.wgStarted.Add(1)
-	svc.wgStopped.Add(1)
 	go svc.sender()
 
 	// Wait for all the goroutines to start before returning
